@@ -98,9 +98,9 @@ theorem setLastUnion_safe (gen : Bool) (dev : Dev) (one : Bool) (a : SetArg) (h 
       cases d with
       | obj kvs =>
         simp only [setLastUnion]
-        cases one
-        · exact setLastUnion_safe gen dev false a h ms _
+        split
         · exact safe_stop
+        · exact setLastUnion_safe gen dev one a h ms _
       | _ => simp only [setLastUnion]; exact setLastUnion_safe gen dev one a h ms _
     | idx i =>
       cases d with
@@ -119,7 +119,7 @@ theorem setLastUnion_safe (gen : Bool) (dev : Dev) (one : Bool) (a : SetArg) (h 
 theorem setLast_safe (gen : Bool) (dev : Dev) (one : Bool) (a : SetArg) (h : (gen && dev.genUnionOOB) = false)
     (f : Frag) (d : JV) : Safe (setLast gen dev one a f d).st := by
   cases f with
-  | child k => cases d <;> simp only [setLast] <;> first | exact safe_stopIf one | exact safe_go
+  | child k => cases d <;> simp only [setLast] <;> first | exact safe_stopIf _ | exact safe_go
   | nth i =>
     cases d with
     | arr xs =>
